@@ -232,8 +232,50 @@ def element_index_agreement(ctx):
         raise AnalysisError(f"C11.R7: only {n} element-loop instances found")
 
 
+BASIS_ATOMS = {"A_IB": "A_IB", "A_IB_q": "A_IB"}
+BASIS_PAIRS = [("v_P", "J_P"), ("v_P", "v_P_q"), ("a_P", "a_P_u"), ("a_P", "a_P_q")]
+
+
+def basis_degree_rule(ctx, rule="C11.R10"):
+    """Differentiation with respect to q or u never changes how often the cross-section basis enters a product: d/du leaves A_IB alone,
+    d/dq turns one factor A_IB into A_IB_q.  So the number of basis factors (A_IB and A_IB_q together) of every monomial of a stated
+    derivative must occur among the monomials of its primal (K10 supports keep multiplicities).  The interpolated basis of the R12 rod is
+    NOT orthogonal between nodes, so `A (Omega x r)` and `(A Omega) x (A r)` differ there: a primal rewritten with the basis entering
+    twice no longer has J_P / v_P_q as its derivatives although both forms agree for every rotation matrix."""
+    from .. import support, protocol
+    rep = ctx.rep
+    cis = [c for c in ctx.model.all_classes() if c.qual == "CosseratRod_PetrovGalerkin"]
+    if not cis:
+        raise AnalysisError("CosseratRod_PetrovGalerkin vanished")
+    ci = cis[0]
+    view = protocol.ClassView(ctx, ci, ctx.model.variants(ci)[0])
+
+    def degs(name):
+        S, why = support.support_of(view, name)
+        if S is support.TOP:
+            return None, why
+        return {sum(1 for a in m if a in BASIS_ATOMS) for m in S}, None
+    for p_, d_ in BASIS_PAIRS:
+        C = f"{ci.rel}:{ci.qual}.{d_}"
+        dp, wp = degs(p_)
+        dd, wd = degs(d_)
+        if dp is None or dd is None:
+            rep.ok(rule, C, f"({p_} -> {d_}): support not polynomial ({wp or wd}); no verdict", verdict="unknown", trivial=True)
+            continue
+        extra = sorted(dd - dp)
+        if extra:
+            c_, fn = view.method(d_)
+            rep.bad(rule, C, f"{p_} -> {d_}", f"`{d_}` has monomials with {extra} factor(s) of the cross-section basis (A_IB / A_IB_q) but its primal `{p_}` only has monomials with {sorted(dp)}: "
+                    "differentiation cannot change that count, so one of the two is not written in the form the other differentiates (they agree only where the interpolated basis is "
+                    "orthogonal - not for R12 rods between nodes)", f"{ci.rel}:{getattr(fn, 'lineno', 0)}")
+        else:
+            rep.ok(rule, C, f"({p_} -> {d_}): basis multiplicities {sorted(dd)} of the derivative occur in the primal {sorted(dp)}")
+
+
 def run(ctx):
     rep = ctx.rep
+    rep.rule("C11.R10", "a stated derivative has the same number of cross-section-basis factors per monomial as its primal (K10 multiplicities; the R12 basis is not orthogonal)", 4)
+    basis_degree_rule(ctx)
     rep.rule("C11.R8", "dependence monotonicity (K13) over every primal/derivative pair of K5: a stated derivative reads no datum its primal does not read", 20)
     from .. import depmono as _dm
     _dm.check_k5_pairs(ctx, "C11.R8", ['CosseratRod'])
@@ -467,4 +509,8 @@ NEUTRAL = [
          new="        for e in range(self.nelement):\n            elDOF_u = self.elDOF_u[e]\n            self.__M[elDOF_u, elDOF_u] = self.M_el(e)"),
     dict(id="c11-n-r6", what="rod r_OP_q accumulates into a private copy", file=RODB_,
          old="        return r_OC_q + np.einsum(\"ijk,j->ik\", A_IB_q, B_r_CP)\n\n    def v_P(", new="        r_OP_q = r_OC_q.copy()\n        r_OP_q += np.einsum(\"ijk,j->ik\", A_IB_q, B_r_CP)\n        return r_OP_q\n\n    def v_P("),
+]
+MUTANTS += [
+    dict(id="c11-r10-seed", canary=True, what="[seeded by sub-agent] rod v_P written as v_C + (A Omega) x (A r)", file="cardillo/rods/_base.py",
+         old="        return v_C + A_IB @ cross3(B_Omega, B_r_CP)\n", new="        return v_C + cross3(A_IB @ B_Omega, A_IB @ B_r_CP)\n", expect="C11.R10"),
 ]
